@@ -1371,15 +1371,21 @@ pub fn gen_c03(rng: &mut Rng, thorough: bool) -> WorldTrace {
             v.role = "company_rawnames".into();
             v.args = vec!["ws".into()];
             let mut other_done = false;
+            // the accompanying file's name either differs in another non-UTF-8 byte, or it is — in
+            // valid UTF-8 — literally what a lossy rendering of the faulty file's name looks like
+            let literal_twin = rng.chance(1, 2);
             for f in v.files.iter_mut() {
                 if f.name == "faulty.st" {
                     f.name = "z\u{fffd}hler.st".into();
                     f.name_bytes = Some(b"z\xE4hler.st".to_vec());
                 } else if !other_done {
                     f.name = "z\u{fffd}hler.st".into();
-                    f.name_bytes = Some(b"z\xF6hler.st".to_vec());
+                    f.name_bytes = if literal_twin { None } else { Some(b"z\xF6hler.st".to_vec()) };
                     other_done = true;
                 }
+            }
+            if literal_twin {
+                v.role = "company_rawnames_twin".into();
             }
             variants.push(v);
         }
@@ -1407,7 +1413,7 @@ fn oracle_c03(t: &WorldTrace, obs: &[Obs], stats: &mut Stats) -> Vec<Violation> 
     let alone_mapped: Vec<(String, Option<(usize, usize)>)> = mapped(&t.world, &t.variants[0], alone).into_iter().filter(|(c, _)| !CURABLE.contains(&c.as_str())).collect();
     let involved = t.world.fault.as_ref().map(|f| f.involved.clone()).unwrap_or_default();
     for (i, (v, o)) in t.variants.iter().zip(obs).enumerate() {
-        if v.role != "company" && v.role != "company_dup" && v.role != "company_rawnames" && !(clash && v.role == "alone") {
+        if v.role != "company" && v.role != "company_dup" && v.role != "company_rawnames" && v.role != "company_rawnames_twin" && !(clash && v.role == "alone") {
             continue;
         }
         if matches!(o.outcome, Outcome::Panic(_)) {
